@@ -30,6 +30,11 @@ CHECKS = {
                   'tie-breaking argsort may choose, z3 decides flags, levels, counts, verdicts, the Bonferroni=>Holm implication, '
                   'permutation/reshape invariance and Student-pass => both pass. Bounded by m <= 3 (quick) / 4 (thorough) bins.',
              design='DESIGN.md section 4 C06'),
+ 'C07': dict(technique='bounded symbolic execution of the real chi-square test (symrun + z3 QF_NRA, uninterpreted chi-square law); zero-error mask concretised by solver-driven forking',
+             text='For every extended-real cell, every zero-error pattern, alpha in (0,1), both option settings, on every path z3 decides: '
+                  'statistic == sum over used bins, ndf == number of used bins, p-value == sf(statistic, ndf), verdict <=> all p > alpha, '
+                  'order independence, undefined statistic never passes. Bounded by <= 4 bins.',
+             design='DESIGN.md section 4 C07'),
 }
 
 NOT_YET = {}
